@@ -88,7 +88,7 @@ RULE = (
     "frames / adjacency; feature block counts; hostile character classes present; None-field pattern; export modes); non-trivial "
     "= some transcript is multi-exon, coding or minus-strand, or a hostile character is present."
 )
-SCOPE = {"quick": {"N": 4800}, "thorough": {"N": 48000}}
+SCOPE = {"quick": {"N": 9600}, "thorough": {"N": 48000}}
 FLOOR = {"quick": 1500, "thorough": 15000}
 _SYNTAX = ["gff.columns", "gff.structure", "gff.coords", "gff.strand", "gff.phase", "gff.unique-ids", "gff.parent-earlier", "gff.sorted",
            "gff.reserved-attrs", "gff.attr-decode", "gff.fasta"]
